@@ -967,6 +967,34 @@ def extract_delete_field_pk_guard(repo):
     return tests[0]
 
 
+def extract_merge_lists_dest_first(repo):
+    """utils/datastructures.merge_dicts: for a key both dictionaries have, a list is merged by `dest[key] += value`
+    (the destination's items first), a dictionary by recursion with (dest[key], value), and a key the destination
+    lacks is set to the source's value"""
+    tree = ast.parse(_src(repo, 'django_evolution/utils/datastructures.py'))
+    fn = _find_func(tree, 'merge_dicts')
+    args = [a.arg for a in fn.args.args]
+    loops = [n for n in fn.body if isinstance(n, ast.For)]
+    if args != ['dest', 'source'] or len(loops) != 1 or ast.unparse(loops[0].iter) != 'six.iteritems(source)':
+        raise ExtractError('merge_dicts: unexpected shape')
+    aug = [ast.unparse(n) for n in ast.walk(loops[0]) if isinstance(n, ast.AugAssign)]
+    rec = [ast.unparse(n) for n in ast.walk(loops[0]) if isinstance(n, ast.Call) and ast.unparse(n.func) == 'merge_dicts']
+    plain = [ast.unparse(n) for n in ast.walk(loops[0]) if isinstance(n, ast.Assign)]
+    return aug == ['dest[key] += value'] and rec == ['merge_dicts(dest[key], value)'] and plain == ['dest[key] = value']
+
+
+def extract_batch_merge_body(repo):
+    """EvolveAppTask._build_batches: what happens when a graph node has the type of the previous batch
+    (`if batch_type == prev_batch_type:`) - the statements of that branch, asserts aside"""
+    tree = ast.parse(_src(repo, 'django_evolution/evolve/evolve_app_task.py'))
+    cls = _find_class(tree, 'EvolveAppTask')
+    fn = _find_func(cls, '_build_batches')
+    ifs = [n for n in ast.walk(fn) if isinstance(n, ast.If) and ast.unparse(n.test) == 'batch_type == prev_batch_type']
+    if len(ifs) != 1:
+        raise ExtractError('_build_batches: expected one `if batch_type == prev_batch_type:`')
+    return [ast.unparse(n) for n in ifs[0].body if not isinstance(n, ast.Assert)]
+
+
 def extract_found_reset_per_label(repo):
     """get_app_mutations: the flag that says "an SQL file was found for this label" is set to False INSIDE the loop
     over the labels (once per label), so that a label without an SQL file falls back to its Python module whatever
@@ -1250,6 +1278,14 @@ def regenerate(repo, outdir):
     flags['found_reset_per_label'] = frl
     parts.append('/-- get_app_mutations forgets, for every label, whether an earlier label was shipped as an SQL file -/')
     parts.append('def foundResetPerLabel : Bool := ' + ('true' if frl else 'false'))
+    mdf = extract_merge_lists_dest_first(repo)
+    flags['merge_lists_dest_first'] = mdf
+    parts.append('/-- merge_dicts concatenates lists destination first, recurses into dictionaries, adds missing keys -/')
+    parts.append('def mergeListsDestFirst : Bool := ' + ('true' if mdf else 'false'))
+    bmb = extract_batch_merge_body(repo)
+    flags['batch_merge_body'] = bmb
+    parts.append('/-- _build_batches: the branch that folds a graph node into the previous batch of the same type -/')
+    parts.append('def batchMergeBody : List String := ' + lean_list(lean_str(x) for x in bmb))
     cvw = extract_current_version_without_alias(repo)
     flags['current_version_without_alias'] = cvw
     parts.append('/-- per-database library code that asks for the current version without naming the database -/')
